@@ -1131,6 +1131,20 @@ func reopenCase(c XCase, st *ev.Stats) error {
 	// resume: new records are appended after the old ones
 	for _, s := range c.More {
 		rec.Apply(m2, s)
+		// let the write-behind keep up, so that the bound of the resumed log can be judged
+		dl := time.Now().Add(2 * time.Second)
+		for be2.saved != nil && time.Now().Before(dl) {
+			mr := be2.mem.MachineRecord()
+			base := uint64(0)
+			if mr1 != nil {
+				base = mr1.NextId - 1
+			}
+			if mr == nil || be2.saved()+uint64(be2.pending())+base >= mr.NextId-1 {
+				break
+			}
+			time.Sleep(200 * time.Microsecond)
+		}
+		time.Sleep(300 * time.Microsecond)
 	}
 	if err := be2.mem.Sync(); err != nil {
 		return err
@@ -1149,6 +1163,22 @@ func reopenCase(c XCase, st *ev.Stats) error {
 	}
 	if errs := be2.errs.list(); len(errs) > 0 {
 		return fmt.Errorf("%s reported errors after the re-open: %v", c.Cfg.Backend, errs)
+	}
+	// the resumed log is bounded like a fresh one (ids continue from the stored machine record)
+	// (judged once the second session has saved enough for at least one GC of its own: the first session
+	// may have ended with an unpaced backlog)
+	if bound := c.Cfg.MaxRecords*5/2 + 2*c.Cfg.Batch + 2; len(final) > bound && len(newRef) > 3*c.Cfg.MaxRecords+2*c.Cfg.Batch+2 {
+		dl := time.Now().Add(2 * time.Second)
+		for len(final) > bound && time.Now().Before(dl) {
+			time.Sleep(20 * time.Millisecond)
+			if final, err = be2.mem.FindLatest(ctx, false, 0, amhist.Query{}); err != nil {
+				return err
+			}
+		}
+		if len(final) > bound {
+			return fmt.Errorf("%s: after the re-open the log keeps %d records (%d before the re-open, %d matched since); bound 2.5 x MaxRecords %d + 2 x batch %d + 2 = %d",
+				c.Cfg.Backend, len(final), len(before), len(newRef), c.Cfg.MaxRecords, c.Cfg.Batch, bound)
+		}
 	}
 	if len(final) < len(newRef) && len(final) < c.Cfg.MaxRecords {
 		return fmt.Errorf("%s: after the re-open %d more transitions matched, %d records stored in total (before: %d)", c.Cfg.Backend, len(newRef), len(final), len(before))
@@ -1187,7 +1217,11 @@ func TestReopen(t *testing.T) {
 		c.History = gen.GenHistory(t, sc, gen.HistoryOpts{MinLen: 1, MaxLen: 12, Ops: []string{"add", "remove", "set", "toggle"}})
 		c.Cfg = genCfg(t, sc, rapid.SampledFrom([]string{"bbolt", "bbolt", "badger", "gorm"}).Draw(t, "backend"))
 		c.Cfg.Pace = false
-		c.More = gen.GenHistory(t, sc, gen.HistoryOpts{MinLen: 1, MaxLen: 6, Ops: []string{"add", "remove", "set", "toggle"}})
+		c.More = gen.GenHistory(t, sc, gen.HistoryOpts{MinLen: 1, MaxLen: 30, Ops: []string{"add", "remove", "set", "toggle"}})
+		if rapid.Bool().Draw(t, "smallMax") {
+			c.Cfg.MaxRecords = rapid.IntRange(1, 3).Draw(t, "maxSmall")
+			c.Cfg.Batch = rapid.IntRange(1, 2).Draw(t, "batchSmall")
+		}
 		st.Journal(map[string]any{"kind": "reopen", "case": c})
 		if err := reopenCase(c, st); err != nil {
 			ev.G().PinLast()
